@@ -245,6 +245,11 @@ func (s *Session) bind(o *Config) {
 		return
 	}
 
+	if iq.Type == stanza.IQTypeError {
+		s.err = errors.New("iq bind error")
+		return
+	}
+
 	// TODO Check all elements
 	switch payload := iq.Payload.(type) {
 	case *stanza.Bind:
